@@ -148,7 +148,10 @@ def main():
     known = {(e['property'], e['rule'], e['construct']) for e in load_known() if e.get('status') == 'finding'}
     src = sources()
     bad = 0
-    only = sys.argv[1:]
+    only = [a for a in sys.argv[1:] if not (a.startswith('C') and a[1:].isdigit())]
+    ponly = [a for a in sys.argv[1:] if a.startswith('C') and a[1:].isdigit()]
+    if ponly:
+        props = ponly
     for name, fn in (('reformat', t_reformat), ('shift', t_shift), ('logging', t_logging), ('swapif', t_swapif), ('retvar', t_retvar), ('rename', t_rename)):
         if only and name not in only:
             continue
